@@ -88,6 +88,7 @@ FACTORIES = {"list": list, "dict": dict, "tuple": tuple, "str": str, "set": set,
 
 SRC_KINDS = ["dataclass", "dataclass", "attrs", "namedtuple", "typeddict", "pydantic"]
 DST_KINDS = ["dataclass", "dataclass", "attrs", "namedtuple", "typeddict", "pydantic", "plain"]
+GENERIC_KINDS = ["dataclass", "dataclass", "attrs", "namedtuple", "typeddict"]
 
 FIELD_NAMES = ["a", "b", "c", "d", "e", "x", "y", "id", "name", "title", "value", "data", "ctx", "src", "r", "n",
                "coercer", "key", "dst", "item"]
@@ -195,30 +196,51 @@ class CEnv(codec.Env):
         return self.classes[key]
 
 
-def build_hint(t, E: CEnv):  # noqa: PLR0911
+def subst(t, arg):
+    """Replace the type variable ["tv"] of a generic model's field type by the type argument."""
+    if arg is None:
+        return t
+    if t[0] == "tv":
+        return arg
+    if t[0] in ("opt", "list", "tuple", "set", "deque"):
+        return [t[0], subst(t[1], arg)]
+    if t[0] == "dict":
+        return ["dict", subst(t[1], arg), subst(t[2], arg)]
+    if t[0] == "model" and len(t) > 2:  # noqa: PLR2004
+        return ["model", t[1], subst(t[2], arg)]
+    return t
+
+
+def targ(t):
+    return t[2] if len(t) > 2 else None  # noqa: PLR2004
+
+
+def build_hint(t, E: CEnv, tv=None):  # noqa: PLR0911
     tag = t[0]
     if tag in SCALARS:
         return SCALARS[tag]
+    if tag == "tv":
+        return tv
     if tag == "any":
         return typing.Any
     if tag == "none":
         return type(None)
     if tag == "opt":
-        return typing.Optional[build_hint(t[1], E)]
+        return typing.Optional[build_hint(t[1], E, tv)]
     if tag == "union":
-        return typing.Union[tuple(build_hint(x, E) for x in t[1])]
+        return typing.Union[tuple(build_hint(x, E, tv) for x in t[1])]
     if tag == "list":
-        return typing.List[build_hint(t[1], E)]
+        return typing.List[build_hint(t[1], E, tv)]
     if tag == "tuple":
-        return typing.Tuple[build_hint(t[1], E), ...]
+        return typing.Tuple[build_hint(t[1], E, tv), ...]
     if tag == "set":
-        return typing.Set[build_hint(t[1], E)]
+        return typing.Set[build_hint(t[1], E, tv)]
     if tag == "deque":
-        return typing.Deque[build_hint(t[1], E)]
+        return typing.Deque[build_hint(t[1], E, tv)]
     if tag == "dict":
-        return typing.Dict[build_hint(t[1], E), build_hint(t[2], E)]
+        return typing.Dict[build_hint(t[1], E, tv), build_hint(t[2], E, tv)]
     if tag == "model":
-        return E.cls(t[1])
+        return E.cls(t[1]) if targ(t) is None else E.cls(t[1])[build_hint(t[2], E, tv)]
     raise ValueError(t)
 
 
@@ -231,7 +253,7 @@ def ttext(t, E=None) -> str:
     if tag == "dict":
         return f"dict[{ttext(t[1])},{ttext(t[2])}]"
     if tag == "model":
-        return f"M{t[1]}"
+        return f"M{t[1]}" + (f"[{ttext(t[2])}]" if targ(t) is not None else "")
     return tag
 
 
@@ -257,8 +279,14 @@ def build_model(E: CEnv, idx: int):  # noqa: C901, PLR0912, PLR0915
     ns: dict = {"__name__": "c13_dyn", "dataclass": dataclasses.dataclass, "field": dataclasses.field,
                 "NamedTuple": typing.NamedTuple, "TypedDict": typing.TypedDict, "NotRequired": typing.NotRequired}
     fields = ms["fields"]
+    tv = None
+    gen = ""
+    if ms.get("generic"):
+        tv = ns["TV"] = typing.TypeVar(f"T{idx}")
+        ns["Generic"] = typing.Generic
+        gen = "Generic[TV]"
     for i, f in enumerate(fields):
-        ns[f"T{i}"] = build_hint(f["t"], E)
+        ns[f"T{i}"] = build_hint(f["t"], E, tv)
         d = f.get("d")
         if d is not None and d[0] == "v":
             ns[f"D{i}"] = bv(d[1], E)
@@ -266,7 +294,7 @@ def build_model(E: CEnv, idx: int):  # noqa: C901, PLR0912, PLR0915
             ns[f"F{i}"] = FACTORIES[d[1]]
     lines = []
     if kind == "dataclass":
-        lines += ["@dataclass", f"class {cname}:"]
+        lines += ["@dataclass", f"class {cname}({gen}):"]
         for i, f in enumerate(fields):
             d, kw = f.get("d"), ", kw_only=True" if f.get("kw") else ""
             if d is None:
@@ -278,7 +306,7 @@ def build_model(E: CEnv, idx: int):  # noqa: C901, PLR0912, PLR0915
     elif kind == "attrs":
         import attrs  # noqa: PLC0415
         ns["attrs"] = attrs
-        lines += ["@attrs.define", f"class {cname}:"]
+        lines += ["@attrs.define", f"class {cname}({gen}):"]
         for i, f in enumerate(fields):
             d, kw = f.get("d"), "kw_only=True" if f.get("kw") else ""
             if d is None:
@@ -288,7 +316,7 @@ def build_model(E: CEnv, idx: int):  # noqa: C901, PLR0912, PLR0915
             else:
                 lines.append(f"    {f['n']}: T{i} = attrs.field(factory=F{i}, {kw})")
     elif kind == "namedtuple":
-        lines.append(f"class {cname}(NamedTuple):")
+        lines.append(f"class {cname}(NamedTuple{', ' + gen if gen else ''}):")
         for i, f in enumerate(fields):
             d = f.get("d")
             if d is None:
@@ -298,7 +326,7 @@ def build_model(E: CEnv, idx: int):  # noqa: C901, PLR0912, PLR0915
             else:
                 lines.append(f"    {f['n']}: T{i} = F{i}()")
     elif kind == "typeddict":
-        lines.append(f"class {cname}(TypedDict):")
+        lines.append(f"class {cname}(TypedDict{', ' + gen if gen else ''}):")
         for i, f in enumerate(fields):
             lines.append(f"    {f['n']}: T{i}" if f.get("d") is None else f"    {f['n']}: NotRequired[T{i}]")
     elif kind == "pydantic":
@@ -390,13 +418,15 @@ def image(o, t, E: CEnv):
     tag = t[0]
     if tag == "model":
         ms = E.models[t[1]]
+        a = targ(t)
         if ms["kind"] == "typeddict" and type(o) is dict:
             known = {f["n"] for f in ms["fields"]}
-            return ("model", t[1], [(f["n"], image(o[f["n"]], f["t"], E) if f["n"] in o else ("absent",))
+            return ("model", t[1], [(f["n"], image(o[f["n"]], subst(f["t"], a), E) if f["n"] in o else ("absent",))
                                     for f in ms["fields"]]
                     + [("<extra keys>", canon({k: v for k, v in o.items() if k not in known}, E))])
         if E.by_class.get(type(o)) == t[1]:
-            return ("model", t[1], [(f["n"], image(getattr(o, f["n"], _MISSING), f["t"], E)) for f in ms["fields"]])
+            return ("model", t[1], [(f["n"], image(getattr(o, f["n"], _MISSING), subst(f["t"], a), E))
+                                    for f in ms["fields"]])
     elif tag == "opt" and o is not None:
         return image(o, t[1], E)
     elif tag in ("list", "tuple", "deque") and type(o) is ITER[tag]:
@@ -592,7 +622,7 @@ class Ref:
             return last[0] in ("param", "field", "funcparam") and last[1] == p[1]
         if k == "PF":
             return (last[0] in ("field", "funcparam") and last[1] == p[2] and len(stack) >= 2  # noqa: PLR2004
-                    and stack[-2][2] == ["model", p[1]])
+                    and stack[-2][2][:2] == ["model", p[1]])
         if k == "FP":
             return len(stack) == 1 and last[0] == "param" and last[1] == p[1]
         if k == "OR":
@@ -622,7 +652,9 @@ class Ref:
             if S[1] == D[1]:
                 raise RefUnspec("same model class on both sides: 'same type' and 'model' rules overlap")
             self.labels.add("coerce:model")
-            return self.model_plan(S[1], D[1], sst, dst)
+            if targ(S) is not None or targ(D) is not None:
+                self.labels.add("coerce:generic_model")
+            return self.model_plan(S[1], D[1], sst, dst, targ(S), targ(D))
         if sk in ITER and dk in ITER:
             elem = self.coercer(S[1], D[1], [*sst, ("generic", 0, S[1])], [*dst, ("generic", 0, D[1])])
             factory = ITER[dk]
@@ -668,8 +700,11 @@ class Ref:
                 return it["k"] == "allow"
         return False
 
-    def model_plan(self, smi, dmi, sst, dst):  # noqa: C901, PLR0912, PLR0915
+    def model_plan(self, smi, dmi, sst, dst, sarg=None, darg=None):  # noqa: C901, PLR0912, PLR0915
         S, D = self.models[smi], self.models[dmi]
+        # generic models: the fields carry the substituted types ("conversion like top-level models" of G[X] -> H[Y])
+        S = {**S, "fields": [{**f, "t": subst(f["t"], sarg)} for f in S["fields"]]}
+        D = {**D, "fields": [{**f, "t": subst(f["t"], darg)} for f in D["fields"]]}
         top = len(dst) == 1
         E = self.E
         plans = []
@@ -785,14 +820,15 @@ class Ref:
         for pname, annot in spec["ctx"]:
             ps = [p for p in self.params if p["name"] == pname]
             if not ps:
-                raise RefRefuse(f"link_function parameter {pname!r} has no converter parameter", True)
+                # what happens then is not documented (adaptix: error, or the field is skipped when optional + allowed)
+                raise RefRefuse(f"link_function parameter {pname!r} has no converter parameter", False)
             t = annot or ["any"]
             pos.append((pname, self.coercer(ps[0]["t"], t, [("param", pname, ps[0]["t"])], [*gst, ("funcparam", pname, t)],
                                             [*gst[:-1], ("funcparam", pname, t)])))
         for fname, annot in spec["kw"]:
             fs = [f for f in S["fields"] if f["n"] == fname]
             if not fs:
-                raise RefRefuse(f"link_function keyword-only parameter {fname!r} has no model field", True)
+                raise RefRefuse(f"link_function keyword-only parameter {fname!r} has no model field", False)
             t = annot or ["any"]
             co = self.coercer(fs[0]["t"], t, [*sst, ("field", fname, fs[0]["t"])], [*gst, ("funcparam", fname, t)],
                               [*gst[:-1], ("funcparam", fname, t)])
@@ -959,7 +995,8 @@ def check_case(ctx: runner.Ctx, case):  # noqa: C901, PLR0912, PLR0915
             result = cv.convert(src_obj, Dcls, recipe=call_recipe)
     except ProviderNotFoundError as e:
         if verdict == "ok":
-            viol("creation_refused", (_refusal_feature(ref), risk), f"linkable by the documented rules, refused: {_cause(e)}")
+            viol("creation_refused", (_cause_kind(e), risk),
+                 f"linkable by the documented rules ({_refusal_feature(ref)}), refused: {_cause(e)}")
         elif verdict == "refuse":
             ctx.count("refused_as_documented")
         return
@@ -968,7 +1005,7 @@ def check_case(ctx: runner.Ctx, case):  # noqa: C901, PLR0912, PLR0915
             raised = e      # creation and call are one step here; judged below like a failing call
         else:
             if verdict != "unspecified":
-                viol("creation_crashed", (type(e).__name__, exc_site(e), risk), describe(e))
+                viol("creation_crashed", (type(e).__name__, site(e), risk), describe(e))
             return
     finally:
         if stub_file is not None:
@@ -990,6 +1027,36 @@ def check_case(ctx: runner.Ctx, case):  # noqa: C901, PLR0912, PLR0915
             viol("doc_differs", (risk,), f"stub {stub.__doc__!r} converter {conv.__doc__!r}")
     elif api["kind"] == "get" and api.get("name") and conv.__name__ != api["name"]:
         viol("name_differs", ("get_converter", risk), f"name={api['name']!r} converter {conv.__name__!r}")
+
+    # ---- a call the stub's signature rejects must be rejected by the converter as well
+    if api["kind"] == "impl" and case.get("badcall"):
+        bargs, bkwargs = list(args), dict(kwargs)
+        how = case["badcall"]
+        if how == "unknown_kw":
+            bkwargs["no_such_parameter"] = 1
+        elif how == "extra_positional":
+            bargs.append(1)
+        elif how == "twice" and bargs:
+            bkwargs[first_name] = src_obj
+        elif how == "drop" and (bkwargs or len(bargs) > 1):
+            if bkwargs:
+                bkwargs.pop(sorted(bkwargs)[-1])
+            else:
+                bargs.pop()
+        elif how == "po_by_kw" and api["stub"]["first"]["kind"] == "po":
+            bargs, bkwargs = bargs[1:], {**bkwargs, first_name: src_obj}
+        try:
+            inspect.signature(stub).bind(*bargs, **bkwargs)
+        except TypeError:
+            ctx.count("bad_calls_checked")
+            try:
+                r = conv(*bargs, **bkwargs)
+            except TypeError:
+                pass
+            except Exception as e:  # noqa: BLE001
+                viol("bad_call_not_typeerror", (how, type(e).__name__), describe(e))
+            else:
+                viol("bad_call_accepted", (how,), f"args={bargs!r} kwargs={bkwargs!r} returned {r!r}")
 
     # ---- the call
     if conv is not None:
@@ -1013,7 +1080,7 @@ def check_case(ctx: runner.Ctx, case):  # noqa: C901, PLR0912, PLR0915
                  + (describe(raised) if raised is not None else f"returned {result!r}"))
         return
     if raised is not None:
-        viol("call_raised", (type(raised).__name__, exc_site(raised), risk), describe(raised))
+        viol("call_raised", (type(raised).__name__, site(raised), risk), describe(raised))
         return
     got_c, exp_c = image(result, ["model", dmi], E), image(expected, ["model", dmi], E)
     if got_c != exp_c:
@@ -1041,6 +1108,26 @@ def same_signature(a: inspect.Signature, b: inspect.Signature) -> bool:
         if pa.default is not pb.default and not (type(pa.default) is type(pb.default) and pa.default == pb.default):
             return False
     return True
+
+
+def site(e) -> str:
+    """exc_site without the generated class names (one bucket per root cause, not per model name)."""
+    s = exc_site(e)
+    if s.startswith("<generated>:coerce_"):
+        return "<generated>:coerce_*"
+    return s
+
+
+def _cause_kind(e) -> str:
+    """Innermost reason of a ProviderNotFoundError, names stripped."""
+    c, last = e.__cause__, str(e)
+    depth = 0
+    while c is not None and depth < 12:  # noqa: PLR2004
+        last = str(c).split("\n")[0]
+        c = c.exceptions[0] if isinstance(c, BaseExceptionGroup) and c.exceptions else c.__cause__
+        depth += 1
+    import re  # noqa: PLC0415
+    return re.sub(r"`[^`]*`", "_", last)[:70]
 
 
 def _cause(e) -> str:
@@ -1095,6 +1182,7 @@ def st_value(t, models, absent_ok=False):  # noqa: C901, PLR0911
                         unique_by=lambda kv: repr(kv[0])).map(lambda kvs: {"$": "d", "v": [list(kv) for kv in kvs]})
     if tag == "model":
         ms = models[t[1]]
+        arg = targ(t)
 
         @st.composite
         def model_value(draw):
@@ -1102,7 +1190,7 @@ def st_value(t, models, absent_ok=False):  # noqa: C901, PLR0911
             for f in ms["fields"]:
                 if absent_ok and ms["kind"] == "typeddict" and f.get("d") is not None and draw(st.integers(0, 3)) == 0:
                     continue
-                out[f["n"]] = draw(st_value(f["t"], models, absent_ok))
+                out[f["n"]] = draw(st_value(subst(f["t"], arg), models, absent_ok))
             return {"$": "obj", "c": f"M{t[1]}", "f": out}
         return model_value()
     raise ValueError(t)
@@ -1205,10 +1293,14 @@ class Gen:
                 self.groups.append([{"k": "coercer", "src": ["T", [u]], "dst": ["T", [t]], "fn": self.fn_spec(t)}])
             return [u], [t]
         if w < 74 and depth < 2 and len(self.models) < 8:  # noqa: PLR2004
-            if self.pairs and self.chance(20):
-                smi, dmi = self.pick(self.pairs)
-                if smi not in self.open and dmi not in self.open:
-                    return ["model", smi], ["model", dmi]
+            if self.chance(22):
+                x, y = self.targ_pair(depth + 1)
+                smi, dmi = self.pair(depth + 1, generic=True)
+                return ["model", smi, x], ["model", dmi, y]
+            plain_pairs = [p for p in self.pairs if not self.models[p[0]].get("generic")]
+            if plain_pairs and self.chance(20):
+                smi, dmi = self.pick(plain_pairs)
+                return ["model", smi], ["model", dmi]
             smi, dmi = self.pair(depth + 1)
             return ["model", smi], ["model", dmi]
         if w < 82 and not inner:  # noqa: PLR2004
@@ -1230,10 +1322,38 @@ class Gen:
             return ["dict", k, s], ["dict", k2, d]
         return ["dict", k, s], ["dict", k, d]
 
+    def targ_pair(self, depth):
+        """Type arguments (X, Y) for a generic pair G[X] -> H[Y]: again coercible by construction."""
+        w = self.draw(st.integers(0, 99))
+        if w < 50:  # noqa: PLR2004
+            s = self.scalar()
+            return s, s
+        if w < 62:  # noqa: PLR2004
+            return ["bool"], ["int"]
+        if w < 80:  # noqa: PLR2004
+            u = self.pick(["int", "str", "float", "bytes"])
+            t = self.pick([x for x in ["int", "str", "float", "bytes"] if x != u])
+            self.groups.append([{"k": "coercer", "src": ["T", [u]], "dst": ["T", [t]], "fn": self.fn_spec(t)}])
+            return [u], [t]
+        if depth < 2 and len(self.models) < 6:  # noqa: PLR2004
+            smi, dmi = self.pair(depth + 1)
+            return ["model", smi], ["model", dmi]
+        return ["str"], ["str"]
+
+    def tv_pair(self):
+        w = self.draw(st.integers(0, 9))
+        if w < 5:  # noqa: PLR2004
+            return ["tv"], ["tv"]
+        if w < 7:  # noqa: PLR2004
+            return ["list", ["tv"]], [self.pick(["list", "tuple"]), ["tv"]]
+        if w < 9:  # noqa: PLR2004
+            return ["opt", ["tv"]], ["opt", ["tv"]]
+        return ["dict", ["str"], ["tv"]], ["dict", ["str"], ["tv"]]
+
     # ---- model pairs
     open: set = set()
 
-    def pair(self, depth):  # noqa: C901, PLR0912, PLR0915
+    def pair(self, depth, generic=False):  # noqa: C901, PLR0912, PLR0915
         top = depth == 0
         smi = len(self.models)
         self.models.append(None)
@@ -1241,6 +1361,8 @@ class Gen:
         self.models.append(None)
         self.open = self.open | {smi, dmi}
         skind, dkind = self.pick(SRC_KINDS), self.pick(DST_KINDS)
+        if generic:   # pydantic generics: docs/reference/integrations.rst lists their resolving as unreliable
+            skind, dkind = self.pick(GENERIC_KINDS), self.pick(GENERIC_KINDS)
         used_model_names = {m["name"] for m in self.models if m}
         sname = self.fresh(MODEL_NAMES, used_model_names, "S")
         dname = self.fresh(MODEL_NAMES, used_model_names | {sname}, "D")
@@ -1271,7 +1393,8 @@ class Gen:
                 dfields.append({"n": g, "t": dt})
                 continue
             if mode == "same":
-                s, d = self.tpair(depth, (["PF", smi, g], ["PF", dmi, g]))
+                s, d = self.tv_pair() if generic and self.chance(60) else \
+                    self.tpair(depth, (["PF", smi, g], ["PF", dmi, g]))
                 add_src(g, s)
                 dfields.append({"n": g, "t": d})
                 if self.chance(15):
@@ -1294,7 +1417,8 @@ class Gen:
                     if self.chance(50) and u != t:   # a general coercer for the same pair must lose against link(coercer=)
                         self.groups.append([{"k": "coercer", "src": ["T", u], "dst": ["T", t], "fn": self.fn_spec(t[0])}])
                 else:
-                    s, d = self.tpair(depth, (["PF", smi, f], ["PF", dmi, g]))
+                    s, d = self.tv_pair() if generic and self.chance(60) else \
+                        self.tpair(depth, (["PF", smi, f], ["PF", dmi, g]))
                     item = {"k": "link", "src": sp, "dst": dp}
                     add_src(f, s)
                     dfields.append({"n": g, "t": d})
@@ -1441,6 +1565,8 @@ class Gen:
         dfields = self.order_dst(dkind, dfields)
         self.models[smi] = {"name": sname, "kind": skind, "fields": sfields}
         self.models[dmi] = {"name": dname, "kind": dkind, "fields": dfields}
+        if generic:
+            self.models[smi]["generic"] = self.models[dmi]["generic"] = True
         self.open = self.open - {smi, dmi}
         self.pairs.append((smi, dmi))
         return smi, dmi
@@ -1525,7 +1651,7 @@ def st_case(draw):  # noqa: C901, PLR0912, PLR0915
         for p in params:
             level = max(level, draw(st.sampled_from([0, 1, 1, 1, 2])))
             d = None
-            if need_default and level < 2 or draw(st.integers(0, 3)) == 0:  # noqa: PLR2004
+            if need_default and level < 2 or draw(st.integers(0, 3)) == 0 or (probe and p["t"] == ["any"]):  # noqa: PLR2004
                 d = default_for(draw, p["t"], probe)
             if d is None and need_default and level < 2:  # noqa: PLR2004
                 level = 2   # no default in the pool for this type: the parameter becomes keyword-only
@@ -1553,6 +1679,7 @@ def st_case(draw):  # noqa: C901, PLR0912, PLR0915
                 positional_ok = False
             call.append(how)
         case["call"] = call
+        case["badcall"] = draw(st.sampled_from([None, None, "unknown_kw", "extra_positional", "twice", "drop", "po_by_kw"]))
         case["args"] = [draw(st_value(p["t"] or ["any"], models)) for p in out]
     return case
 
@@ -1592,6 +1719,8 @@ def fixed_cases():  # noqa: PLR0915
     yield {"models": [S, D3], "src": 0, "dst": 1, "value": val, "args": [], "call": [], "recipe": [],
            "api": {"kind": "get", "via": "module", "split": [0, 0], "name": "coercer"}}
     D4 = _m("BookDTO", "dataclass", [("title", ["str"], None), ("tags", ["any"], None)])
+    yield {"models": [S, D4], "src": 0, "dst": 1, "value": val, "args": [None], "call": ["pos", "omit"], "recipe": [],
+           "api": impl("convert_book_to_dto", [{"name": "tags", "t": ["any"], "kind": "pk", "d": [{"$": "t", "v": [1]}]}])}
     for c in ({"$": "t", "v": [1]}, [{"$": "t", "v": ["a"]}], "line 1\nline 2"):
         yield {"models": [S, D4], "src": 0, "dst": 1, "value": val, "args": [], "call": [],
                "recipe": [{"k": "const", "dst": ["PF", 1, "tags"], "value": c}],
@@ -1603,7 +1732,7 @@ def explore(ctx: runner.Ctx):
     if ctx.shard == 0:
         for case in fixed_cases():
             check_case(ctx, case)
-    ctx.given(st_case(), lambda case: check_case(ctx, case), ctx.budget(4000, 240000))
+    ctx.given(st_case(), lambda case: check_case(ctx, case), ctx.budget(3200, 160000))
 
 
 RULE = ("case = (model specs, src, dst, recipe, entry point + stub signature, call plan, values), generated "
